@@ -173,7 +173,7 @@ func init() {
 				if !c.Mine(b) {
 					continue
 				}
-				if c.Expired() {
+				if c.Expired() || c16Stop {
 					c.Res.Exhaustive = false
 					break
 				}
@@ -271,6 +271,8 @@ func c16CrashLine(out string) string {
 	return out
 }
 
+var c16Stop bool
+
 // c16Range runs [lo,hi) in a child; on a crash it narrows to one string.
 func c16Range(c *Ctx, maxLen int, lo, hi int64) {
 	exe, _ := os.Executable()
@@ -334,10 +336,9 @@ func c16Range(c *Ctx, maxLen int, lo, hi int64) {
 		}
 		c.Eval(bad - lo)
 		c.Res.Exhaustive = false
-		lo = bad + 1 // continue after the failing string
-		if c.violKeys["unbounded-recursion"]+c.violKeys["hang"]+c.violKeys["process-crash"] > 20 {
-			return // enough evidence; the batch is not completed
-		}
+		// one process-killing string decides the check; every further one costs a dozen child runs
+		c16Stop = true
+		return
 	}
 }
 
